@@ -1072,6 +1072,13 @@ func main() {
 		for _, k := range keys {
 			fmt.Fprintf(&b, "def tmutex_chancap_%s : Nat := %s\n", k, caps[k])
 		}
+		ip4 := load("protocol/network/ipv4")
+		c4 := ip4.chanCaps()
+		if v, ok := c4["echoRequests"]; ok {
+			fmt.Fprintf(&b, "def ipv4_echoRequests_cap : Nat := %s\n", v)
+		} else {
+			must(fmt.Errorf("ipv4: capacity of the echoRequests channel not found"))
+		}
 		b.WriteString("\nend Gen.Shapes\n")
 		write("Shapes", b.String())
 	}
